@@ -308,6 +308,171 @@ def eager_calls(func):
     return out
 
 
+# ------------------------------------------------------------------ who names the graph key of a new layer
+# dask names a layer `funcname(func)-tokenize(func, *args, **kwargs)` unless the call says otherwise:
+#   name=           map_blocks / map_overlap / blockwise / from_array / from_delayed / delayed: the COMPLETE key of the new
+#                   layer ("must be unique"); two calls giving the same name although they compute different things
+#                   collide as soon as their graphs are merged
+#   dask_key_name=  the same for a delayed call
+#   token=          only the readable prefix; the hash of the arguments is still appended (harmless)
+#   **kwargs        anything could be inside
+GRAPH_CALLS = ("map_blocks", "map_overlap", "blockwise", "from_array", "from_delayed", "delayed", "from_collections")
+
+
+def names_in(func, node, depth=0):
+    """the free names an expression is built from (`x.attr` as such), looking through local names bound exactly once"""
+    out = set()
+    if node is None or depth > 4:
+        return out
+    binds = local_bindings(func) if func is not None else {}
+    inner = set()
+    for n in ast.walk(node):
+        if isinstance(n, ast.Attribute) and isinstance(n.value, ast.Name):
+            out.add(ast.unparse(n))
+            inner.add(id(n.value))
+    for n in ast.walk(node):
+        if isinstance(n, ast.Name) and id(n) not in inner:
+            vals = binds.get(n.id)
+            if vals is not None and len(vals) == 1 and vals[0] is not None and depth < 4:
+                out |= names_in(func, vals[0], depth + 1)
+            else:
+                out.add(n.id)
+    return out
+
+
+def key_args(func, call):
+    """what a graph-building call says about the key of the layer it creates"""
+    def text(v):
+        if v is None or (isinstance(v, ast.Constant) and v.value in (None, False)):
+            return ""
+        return ast.unparse(v)[:120]
+    name = kwarg(call, "name")
+    if call_name(call.func) == "from_collections" and name is None and call.args:
+        name = call.args[0]              # HighLevelGraph.from_collections(name, layer, dependencies): a hand-made layer
+    return dict(name=text(name), name_from=sorted(names_in(func, name)) if text(name) else [],
+                token=text(kwarg(call, "token")), key_name=text(kwarg(call, "dask_key_name")),
+                opaque=any(k.arg is None for k in call.keywords))
+
+
+def key_fields(ka):
+    return (f"  keyName := {lean_str(ka['name'])}\n  keyNameFrom := [{', '.join(lean_str(e) for e in ka['name_from'])}]\n"
+            f"  keyToken := {lean_str(ka['token'])}\n  opaqueKwargs := {'true' if ka['opaque'] else 'false'}\n")
+
+
+KEY_FIELD_DECLS = [
+    "  /-- source text of an explicit `name=` of the call (dask: the complete graph key of the new layer); \"\" = left to dask -/",
+    "  keyName : String",
+    "  /-- the names that expression is built from (local names bound once looked through) -/",
+    "  keyNameFrom : List String",
+    "  /-- `token=` (only the readable prefix of the key; the hash of all arguments is still appended) -/",
+    "  keyToken : String",
+    "  /-- the call forwards `**kwargs`: a key could be passed unseen -/",
+    "  opaqueKwargs : Bool",
+]
+NO_KEY = dict(name="?", name_from=[], token="", key_name="", opaque=True)     # shape not recognised: nothing is known
+
+
+def merge_keys(kas):
+    """several calls of one path (terrain maps its block function once per octave)"""
+    if not kas:
+        return dict(NO_KEY)
+    return dict(name="; ".join(k["name"] for k in kas if k["name"]),
+                name_from=sorted({n for k in kas for n in k["name_from"]}),
+                token="; ".join(sorted({k["token"] for k in kas if k["token"]})),
+                key_name="; ".join(k["key_name"] for k in kas if k["key_name"]),
+                opaque=any(k["opaque"] for k in kas))
+
+
+def enclosing_functions(mod):
+    """(qualified name within the module, FunctionDef) for every function, nested ones as outer.inner"""
+    out = []
+
+    def go(node, prefix):
+        for ch in ast.iter_child_nodes(node):
+            if isinstance(ch, (ast.FunctionDef, ast.AsyncFunctionDef)):
+                q = prefix + [ch.name]
+                out.append((".".join(q), ch))
+                go(ch, q)
+            elif isinstance(ch, ast.ClassDef):
+                go(ch, prefix + [ch.name])
+            else:
+                go(ch, prefix)
+    go(mod, [])
+    return out
+
+
+def graph_key_facts(repo):
+    """every call in xrspatial/*.py (tests, datasets and the GPU back-ends' own directories excluded) that creates a graph
+    layer: one record per call, found by a sweep that knows nothing about the operations -- the per-operation facts
+    (Overlap / Blocks / ProximityDask) describe the same calls through their own parsers"""
+    recs, rep = [], {}
+    pkg = os.path.join(repo, "xrspatial")
+    for fn in sorted(os.listdir(pkg)) if os.path.isdir(pkg) else []:
+        if not fn.endswith(".py") or fn.startswith("_"):
+            continue
+        rel = "xrspatial/" + fn
+        modname = fn[:-3]
+        try:
+            mod = parse(repo, rel)
+        except (OSError, SyntaxError) as ex:
+            rep[modname] = "unreadable: " + str(ex)
+            recs.append(dict(module=modname, site=modname + ".?", kind="?", line=0, **NO_KEY))
+            continue
+        funcs = enclosing_functions(mod)
+        owner = {}
+        for q, f in funcs:                      # innermost function wins (later entries are nested deeper or later)
+            for n in ast.walk(f):
+                if isinstance(n, ast.Call):
+                    prev = owner.get(id(n))
+                    if prev is None or len(q.split(".")) >= len(prev[0].split(".")):
+                        owner[id(n)] = (q, f)
+        for n in ast.walk(mod):
+            if not isinstance(n, ast.Call):
+                continue
+            kind = None
+            if isinstance(n.func, ast.Call) and call_name(n.func.func) == "delayed":
+                kind = "delayed-call"            # delayed(f)(args, dask_key_name=...): the key is given at the second call
+            elif not isinstance(n.func, ast.Call) and call_name(n.func) in GRAPH_CALLS:
+                kind = call_name(n.func)
+            if kind is not None:
+                q, f = owner.get(id(n), ("<module>", None))
+                ka = key_args(f, n)
+                recs.append(dict(module=modname, site=f"{modname}.{q}", kind=kind, line=n.lineno, **ka))
+    recs.sort(key=lambda d: (d["module"], d["line"]))
+    out = ["/-! GENERATED by harness/facts_dask.py -- every call of xrspatial/*.py that creates a dask graph layer, and what it says",
+           "    about the key of that layer (`name=` is the complete key, `token=` only its prefix). -/",
+           "namespace XrsVerif.Gen", "",
+           "structure GraphKeyFact where",
+           "  module : String",
+           "  /-- `module.function[.nested function]` holding the call -/",
+           "  site : String",
+           "  /-- map_blocks | map_overlap | blockwise | from_array | from_delayed | delayed | delayed-call | from_collections -/",
+           "  kind : String",
+           "  /-- source text of `name=`; \"\" when absent (or None / False): the key is dask's `funcname-tokenize(func, args, kwargs)` -/",
+           "  nameArg : String",
+           "  nameFrom : List String",
+           "  tokenArg : String",
+           "  /-- `dask_key_name=` of a delayed call -/",
+           "  keyNameArg : String",
+           "  opaqueKwargs : Bool", "",
+           "/-- the call leaves the key of its layer to dask -/",
+           "def GraphKeyFact.keyFree (s : GraphKeyFact) : Bool := s.nameArg == \"\" && s.keyNameArg == \"\" && !s.opaqueKwargs", "",
+           "def allGraphKeyFacts : List GraphKeyFact := ["]
+    rows = []
+    for d in recs:
+        rows.append(f"  {{ module := {lean_str(d['module'])}, site := {lean_str(d['site'])}, kind := {lean_str(d['kind'])}, "
+                    f"nameArg := {lean_str(d['name'])}, nameFrom := [{', '.join(lean_str(e) for e in d['name_from'])}], "
+                    f"tokenArg := {lean_str(d['token'])}, keyNameArg := {lean_str(d['key_name'])}, "
+                    f"opaqueKwargs := {'true' if d['opaque'] else 'false'} }}")
+    out.append(",\n".join(rows))
+    out.append("]\n")
+    out.append("end XrsVerif.Gen")
+    rep["sites"] = [dict(site=d["site"], kind=d["kind"], line=d["line"], name=d["name"], token=d["token"], opaque=d["opaque"])
+                    for d in recs]
+    rep["named"] = [d["site"] for d in recs if d["name"] or d["key_name"] or d["opaque"]]
+    return "GraphKeys.lean", "\n".join(out) + "\n", rep
+
+
 # op, file, public function (dispatching through ArrayTypeFunctionMapping) or None, dask function, numpy function
 OVERLAP_OPS = [
     ("slope", "xrspatial/slope.py", "slope", "_run_dask_numpy", None, None),
@@ -375,12 +540,14 @@ def overlap_facts(repo):
            "  depth : Nat → Nat → Nat × Nat -- halo depth as a function of the kernel shape (rows, cols)",
            "  boundaryNaN : Bool",
            "  eager : List String          -- eager calls (compute/persist/asarray…) on the dask path",
+           "  daskQual : String            -- the function holding the map_overlap call, as `module.function`"] + KEY_FIELD_DECLS + [
            ""]
     rep = {}
     names = []
     for op, rel, public, dask_name, numpy_name, block_expected in OVERLAP_OPS:
         ok, block, npf, depth, bnan, eager, ncalls = True, "?", "?", "fun _ _ => (0, 0)", False, [], []
         bqual, once = "?", False
+        ka, dqual = dict(NO_KEY), "?"
         why = ""
         try:
             mod = parse(repo, rel)
@@ -397,8 +564,10 @@ def overlap_facts(repo):
             df = find_func(mod, dask_name_eff)
             if df is None:
                 raise ValueError(f"dask function {dask_name_eff} not found")
+            dqual = os.path.splitext(os.path.basename(rel))[0] + "." + dask_name_eff
             bc = block_call(mod, df, ("map_overlap",))
             call = bc["call"]
+            ka = key_args(df, call)
             once = not bc["looped"]
             block = resolve_callable(df, bc["func"])
             if block is None:
@@ -448,9 +617,9 @@ def overlap_facts(repo):
                    f"  numpyCalls := [{', '.join(lean_str(e) for e in ncalls)}]\n"
                    f"  once := {'true' if once else 'false'}\n"
                    f"  depth := {depth}\n  boundaryNaN := {'true' if bnan else 'false'}\n"
-                   f"  eager := [{', '.join(lean_str(e) for e in eager)}]\n}}\n")
+                   f"  eager := [{', '.join(lean_str(e) for e in eager)}]\n  daskQual := {lean_str(dqual)}\n" + key_fields(ka) + "}\n")
         rep[op] = dict(ok=ok, why=why, block=block, block_qual=bqual, once=once, numpy=npf, depth=depth, boundary_nan=bnan,
-                       eager=eager)
+                       eager=eager, dask_qual=dqual, key_name=ka["name"], key_token=ka["token"], opaque_kwargs=ka["opaque"])
     out.append("def allOverlapFacts : List OverlapFact := [" + ", ".join(names) + "]\n")
     mtext, mrep = mean_passes_fact(repo)
     out.append(mtext)
@@ -563,10 +732,12 @@ def blocks_facts(repo):
            "  numpyFunc : String           -- what the NumPy backend runs on the whole raster",
            "  numpyReaches : List String   -- functions reachable by name from numpyFunc (depth 3)",
            "  depthless : Bool             -- map_blocks, not map_overlap",
-           "  eager : List String", ""]
+           "  eager : List String",
+           "  daskQual : String            -- the function holding the map_blocks call(s), as `module.function`"] + KEY_FIELD_DECLS + [""]
     rep, names = {}, []
     for op, rel, dname, nname in BLOCKS_OPS:
         ok, block, reaches, eager, depthless, bqual = True, "?", [], [], False, "?"
+        ka, dqual = dict(NO_KEY), os.path.splitext(os.path.basename(rel))[0] + "." + dname
         try:
             mod = parse(repo, rel)
             df = find_func(mod, dname)
@@ -579,6 +750,7 @@ def blocks_facts(repo):
             # every call must name the same function
             blocks = set()
             depthless = True
+            ka = merge_keys([key_args(df, bcall) for bcall in bcs])
             for bcall in bcs:
                 if any(isinstance(a, ast.Starred) for a in bcall.args):
                     raise ValueError("starred arguments")
@@ -606,8 +778,9 @@ def blocks_facts(repo):
                    f"  blockFunc := {lean_str(block)}\n  blockQual := {lean_str(bqual)}\n  numpyFunc := {lean_str(nname)}\n"
                    f"  numpyReaches := [{', '.join(lean_str(e) for e in reaches)}]\n"
                    f"  depthless := {'true' if depthless else 'false'}\n"
-                   f"  eager := [{', '.join(lean_str(e) for e in eager)}]\n}}\n")
-        rep.setdefault(op, dict(block=block, block_qual=bqual, reaches=reaches, eager=eager))
+                   f"  eager := [{', '.join(lean_str(e) for e in eager)}]\n  daskQual := {lean_str(dqual)}\n" + key_fields(ka) + "}\n")
+        rep.setdefault(op, dict(block=block, block_qual=bqual, reaches=reaches, eager=eager, dask_qual=dqual,
+                                key_name=ka["name"], key_token=ka["token"], opaque_kwargs=ka["opaque"]))
     out.append("def allBlocksFacts : List BlocksFact := [" + ", ".join(names) + "]\n")
     out.append("end XrsVerif.Gen")
     return "Blocks.lean", "\n".join(out) + "\n", rep
@@ -643,6 +816,7 @@ def proximity_facts(repo):
     ok = True
     pad = "fun _ _ _ => (-1, -1)"
     fallback, depth_order, bnan, arrays, coords_chunked, fb_single, res_order = "?", [], False, [], False, False, []
+    ka = dict(NO_KEY)
     try:
         mod = parse(repo, rel)
         proc = find_func(mod, "_process")
@@ -668,6 +842,7 @@ def proximity_facts(repo):
         call = next((n for n in ast.walk(pd) if isinstance(n, ast.Call) and call_name(n.func) == "map_overlap"), None)
         if call is None:
             raise ValueError("no map_overlap")
+        ka = key_args(pd, call)
         arrays = [ast.unparse(a) for a in call.args[1:]]
         d = kwarg(call, "depth")
         depth_order = [e.id for e in d.elts] if isinstance(d, ast.Tuple) and all(isinstance(e, ast.Name) for e in d.elts) else []
@@ -703,15 +878,16 @@ def proximity_facts(repo):
            "  boundaryNaN : Bool",
            "  /-- arrays mapped together (the data and both coordinate grids) -/",
            "  arrays : List String",
-           "  coordsChunkedLikeRaster : Bool", "",
+           "  coordsChunkedLikeRaster : Bool"] + KEY_FIELD_DECLS + ["",
            f"def proximity_dask : ProximityDaskFact := {{\n  ok := {'true' if ok else 'false'}\n"
            f"  fallbackTest := {lean_str(fallback)}\n  fallbackSingleBlock := {'true' if fb_single else 'false'}\n"
            f"  pad := {pad}\n  depthOrder := [{', '.join(lean_str(e) for e in depth_order)}]\n"
            f"  resOrder := [{', '.join(lean_str(e) for e in res_order)}]\n"
            f"  boundaryNaN := {'true' if bnan else 'false'}\n  arrays := [{', '.join(lean_str(e) for e in arrays)}]\n"
-           f"  coordsChunkedLikeRaster := {'true' if coords_chunked else 'false'}\n}}\n",
+           f"  coordsChunkedLikeRaster := {'true' if coords_chunked else 'false'}\n" + key_fields(ka) + "}\n",
            "end XrsVerif.Gen"]
-    rep.update(ok=ok, pad=pad, fallback=fallback, depth_order=depth_order, arrays=arrays)
+    rep.update(ok=ok, pad=pad, fallback=fallback, depth_order=depth_order, arrays=arrays, key_name=ka["name"],
+               key_token=ka["token"], opaque_kwargs=ka["opaque"])
     return "ProximityDask.lean", "\n".join(out) + "\n", rep
 
 
@@ -720,3 +896,4 @@ def generate(repo):
     yield blocks_facts(repo)
     yield overlap_facts(repo)
     yield reduction_facts(repo)
+    yield graph_key_facts(repo)
